@@ -230,8 +230,13 @@ class ScreenScheduler():
             if not top_screen.ui_screen.setup(top_screen.args):
                 # remove the screen and skip if setup went wrong
                 self._screen_stack.pop()
-                self.redraw()
                 log.warning("Screen %s setup wasn't successful", top_screen)
+
+                if top_screen.execute_new_loop:
+                    # give control back to the caller of the modal screen
+                    self._event_loop.close_loop()
+                else:
+                    self.redraw()
                 return
 
         # get the widget tree from the screen and show it in the screen
